@@ -230,19 +230,21 @@ Definition type_kwargs (type_ : str) (o : gen_opts) (nm : str) : option (list (s
   if str_eqb type_ (L "class") then
     Some [(L "class_name", KStr nm); (L "decorator_list", opt_strs (o_decorator_list o));
           (L "emit_call", KBool (o_emit_call o))]
-  else if str_eqb type_ (L "function") then Some [(L "function_name", KStr nm)]
+  else if str_eqb type_ (L "function") then
+    Some [(L "function_name", KStr nm); (L "function_type", KStr (L "static"))]
   else if str_eqb type_ (L "argparse") then Some [(L "function_name", KStr nm)]
   else None.
 
 Definition known_type (type_ : str) : bool :=
   str_eqb type_ (L "class") || str_eqb type_ (L "function") || str_eqb type_ (L "argparse").
 
-(* emit.py:function(intermediate_repr, function_name, function_type, ...): function_type has no
-   default and gen does not pass it, so binding the call fails before the body runs;
+(* emit.py:function(intermediate_repr, function_name, function_type, ...): both have no default;
+   gen passes both, so binding the call succeeds (it would be a TypeError otherwise);
    emit.py:class_ and emit.py:argparse_function have defaults for everything gen omits *)
 Definition emit_binds (fn : str) (kwargs : list (str * kwval)) : bool :=
   if str_eqb fn (L "function") then
     existsb (fun p => str_eqb (fst p) (L "function_type")) kwargs
+    && existsb (fun p => str_eqb (fst p) (L "function_name")) kwargs
   else true.
 
 Definition parse_call (is_function : bool) : event :=
@@ -345,8 +347,8 @@ Definition imports_phase (parse_src : str -> option (list top)) (i : gen_in) : l
         match parse_src ftext with
         | None => (tr1 ++ [EvParseSrc ftext], GErr xSyntaxError)
         | Some tops =>
-          (* "".join(map(to_code, get_at_root(...))): nothing between the statements *)
-          (tr1 ++ [EvParseSrc ftext], GOk (concat (map top_text (get_at_root_imports tops))))
+          (* "\n".join(map(to_code, get_at_root(...))): one statement per line, no final newline *)
+          (tr1 ++ [EvParseSrc ftext], GOk (join [nl] (map top_text (get_at_root_imports tops))))
         end
       end
     end
@@ -355,10 +357,17 @@ Definition imports_phase (parse_src : str -> option (list top)) (i : gen_in) : l
 (* input_mapping.rpartition(".")[0] == "" : importlib.import_module("") raises ValueError *)
 Definition has_dot (s : str) : bool := mem_c (ch 46) s.
 
+(* the prepend argument of the format call: nothing when prepend is None or empty, otherwise the
+   text terminated by a newline (added when it does not end with one) *)
+Definition prepend_arg (prepend : option str) : str :=
+  match prepend with
+  | None => []
+  | Some p => if nonempty p then (if endswith [nl] p then p else p ++ [nl]) else []
+  end.
+
 (* "{prepend}{imports}\n{functions_and_classes}\n{__all}".format(...) *)
 Definition assemble (prepend : option str) (imports : str) (texts names : list str) : str :=
-  (match prepend with None => [] | Some p => p end)
-    ++ imports ++ [nl] ++ join [nl; nl] texts ++ [nl] ++ all_text names.
+  prepend_arg prepend ++ imports ++ [nl] ++ join [nl; nl] texts ++ [nl] ++ all_text names.
 
 Definition gen (parse_src : str -> option (list top)) (i : gen_in) : list event * gout gen_ok :=
   if negb (known_type (gi_type i)) then ([], GErr xUnmodelled)
